@@ -24,7 +24,7 @@ ASSUMPTIONS = [
     'failed commits are produced by a second data manager joined to the transaction that raises in tpc_begin / commit / '
     'tpc_vote, sorted before or after the ZODB connection, so the connection is interrupted after 0, some or all of its '
     'own begin/commit/vote steps; storage-level I/O failures are C05',
-    'persistent classes and multi-database references are not driven',
+    'multi-database: two databases, one group of two connections (harness multidb); persistent classes are not driven',
 ]
 
 CODES = ['modify0', 'modify1', 'add', 'add_explicit', 'detach0', 'commit', 'abort',
@@ -164,6 +164,60 @@ def h_program(c0: int, c1: int, c2: int, c3: int, c4: int, n: int, storage: str,
     reached()
 
 
+MCODES = ['modify_one', 'modify_two', 'add_two', 'link', 'commit', 'abort', 'close']
+
+
+def h_multidb(c0: int, c1: int, c2: int, c3: int, n: int, storage: str) -> None:
+    """Programs over a multi-database (a primary connection to database one and, in its group, a connection to
+    database two): changes in either database follow the transaction's outcome, closing the group is refused
+    while ANY member is joined to a transaction, and a reused group keeps no uncommitted state."""
+    from zverif import multidb
+    cs = [c0, c1, c2, c3]
+    codes = []
+    for i in range(4):
+        if i >= n:
+            assume(cs[i] == 0)
+        else:
+            codes.append(MCODES[pick(cs[i], 0, len(MCODES))])
+    with untraced():
+        w = multidb.MultiWorld(storage)
+        try:
+            trace = []
+            for code in codes:
+                if code == 'modify_one':
+                    t = w.modify('one')
+                elif code == 'modify_two':
+                    t = w.modify('two')
+                elif code == 'add_two':
+                    t = w.add('two')
+                elif code == 'link':
+                    t = w.link()
+                elif code == 'commit':
+                    t = w.commit()
+                elif code == 'abort':
+                    t = w.abort()
+                else:
+                    t = w.close_reopen()
+                trace.append(t)
+                where = ' '.join(trace)
+                w.check_view(where)
+                if code in ('commit', 'abort', 'close'):
+                    w.check_clean(where)
+                    w.check_other(where)
+            # whatever happened: a change made now through the (possibly reused) group is committed
+            w.modify('two')
+            w.modify('one')
+            w.commit()
+            where = 'final commit after ' + ' '.join(trace)
+            w.check_view(where)
+            w.check_other(where)
+        finally:
+            w.close_all()
+    reached()
+
+
+from zverif.harness.c14 import h_roundtrip as _roundtrip  # noqa: E402
+
 _FIRST = ['modify0', 'add', 'add_explicit', 'detach0', 'fail_vote<', 'fail_commit>', 'reopen', 'other0']
 HARNESSES = [
     Harness('program', h_program,
@@ -179,6 +233,24 @@ HARNESSES = [
             quick=dict(timeout=320, shards=shards(n=[3], storage=['file'], first=['any']) + shards(n=[4], storage=['file'], first=_FIRST)),
             thorough=dict(timeout=3000, shards=shards(n=[3], storage=['file', 'mapping', 'demo'], first=['any'])
                           + shards(n=[4], storage=['file', 'mapping'], first=CODES) + shards(n=[5], storage=['file'], first=CODES))),
+    Harness('new_objects', _roundtrip,
+            decides='a commit stores exactly the new objects reachable from changed ones (through attributes, plain containers and '
+                    'weak references) or added explicitly, each under an id of this database (same harness as C14 roundtrip)',
+            symbolic='9 adjacency bits (root->3 new nodes, 6 inter-node edges)', bounds='3 new nodes + root; node kinds / explicit add are shards',
+            oracle='reachability over the edge list', code=['ObjectWriter.persistent_id/serialize', 'Connection._store_objects'],
+            quick=dict(timeout=150, shards=shards(explicit_add=[False], storage=['file'], kinds=[0])),
+            thorough=dict(timeout=900, shards=shards(explicit_add=[False, True], storage=['file', 'mapping'], kinds=[0, 13, 21]))),
+    Harness('multidb', h_multidb,
+            decides='in a multi-database (primary connection + a connection to a second database in its group): changes in either '
+                    'database follow the outcome of the transaction, closing the group is refused while any member is joined to a '
+                    'transaction, a reused group shows only committed state and its later changes are committed; cross-database '
+                    'references lead to the object of the group\'s own connection',
+            symbolic='n step codes over 7 operations (modify in database one / two, new object in two, cross-database reference, commit, abort, close+reopen)',
+            bounds='program length n (quick 3, thorough 4); two databases', oracle='per-database committed / working model (zverif/multidb.py)',
+            code=['Connection.get_connection/close/open/_register/commit/tpc_*', 'DB.open/_returnToPool', 'ObjectWriter.persistent_id (cross-database)',
+                  'ObjectReader.load_multi_persistent/load_multi_oid'],
+            quick=dict(timeout=200, shards=shards(n=[3], storage=['mapping'])),
+            thorough=dict(timeout=1200, shards=shards(n=[3, 4], storage=['mapping', 'file']))),
 ]
 
 MANIFEST = dict(
